@@ -266,6 +266,15 @@ def gen_simul(rng: random.Random):
             d["targets"].append({"ready": inp()})
             extra = len(d["targets"])
         d["callers"].append({"ready": inp() if rng.random() < 0.85 else 0, "meth": m, "extra": extra, "arg": arg()})
+    # some callers reach their method through wrapper methods; a hop can be plain, under m.If or with enable_call.
+    # (The library refuses simultaneity constraints on conditionally called methods -- a usage rule; if such a
+    # design is accepted, the property still has to hold on it.)
+    for c in d["callers"]:
+        c["hops"] = []
+        if rng.random() < 0.3:
+            for _ in range(rng.randint(1, 3)):
+                kind = rng.choice(["plain"] * 8 + ["if", "en"])
+                c["hops"].append({"kind": kind, "cond": inp() if kind != "plain" else 0})
     d["nin"], d["nargs"] = nin, nargs
     return d
 
@@ -312,9 +321,43 @@ def build_simul(d):
                         return {"r": d + 1}
                 for a, b in d["pairs"]:
                     H.meth[a].simultaneous(H.meth[b])
+            def hop_call(target, hop, kw):
+                """call `target` through one hop; returns a value with the target's output layout"""
+                if hop["kind"] == "plain":
+                    return target(m, **kw)
+                if hop["kind"] == "en":
+                    return target(m, enable_call=sig(hop["cond"]), **kw)
+                res = Signal(target.layout_out)
+                with m.If(sig(hop["cond"])):
+                    m.d.top_comb += res.eq(target(m, **kw))
+                return res
+
+            def wrap(target, hops, name):
+                """hops[0] is the transaction's own call; hops[i] (i >= 1) the call made by wrapper i"""
+                for i in range(len(hops) - 1, 0, -1):
+                    w = Method(name=f"{name}_w{i}", i=target.layout_in, o=target.layout_out)
+                    fields = [n for n, _ in target.layout_in]
+
+                    def define(w=w, inner=target, hop=hops[i]):
+                        @def_method(m, w)
+                        def _(arg):
+                            return hop_call(inner, hop, {f: arg[f] for f in fields})
+                    define()
+                    target = w
+                return target
+
             for k, c in enumerate(d["callers"]):
+                hops = c.get("hops") or []
+                real = H.meth[c["meth"]]
+                outer = wrap(real, hops, f"c{k}") if hops else real     # wrappers are defined at module level
                 with Transaction(name=f"c{k}").body(m, ready=sig(c["ready"])) as t:
-                    meth = H.meth[c["meth"]]
+                    if hops:
+                        h0 = hops[0]
+
+                        def meth(m_, _outer=outer, _h0=h0, **kw):
+                            return hop_call(_outer, _h0, kw)
+                    else:
+                        meth = real
                     if d["kind"] == "connect":
                         if c["meth"] == 1:
                             r = meth(m, d=H.arg[c["arg"]])
@@ -387,5 +430,8 @@ def make_simul_case(args):
         return {"design": d, "raised": False, "exc": "", "cycles": run_simul(d, vals, argvals), "seed": seed}
     except Exception as ex:  # noqa: BLE001
         import traceback
+        cond_hop = any(h["kind"] != "plain" for c in d["callers"] for h in c.get("hops", []))
         return {"design": d, "raised": True, "exc": f"{type(ex).__name__}: {str(ex)[:300]}", "cycles": [], "seed": seed,
-                "tb": traceback.format_exc()[-1500:]}
+                "tb": traceback.format_exc()[-1500:],
+                # the documented refusal of simultaneity constraints on conditionally called methods
+                "usage_rule": cond_hop and "conditionally called" in str(ex)}
